@@ -68,6 +68,8 @@ class J1939_22:
         self._multi_pg_snd_buffer = {}
         # send_pgn (called from any thread) and the job thread both look up, create and remove multi-pg buffers
         self._multi_pg_lock = threading.Lock()
+        # guards the allocation of outbound session numbers
+        self._session_lock = threading.Lock()
 
         # List of ControllerApplication
         self._cas = []
@@ -174,20 +176,23 @@ class J1939_22:
         return ((hash >> 24) & 0xFF), ((hash >> 16) & 0xFF), ((hash >> 8) & 0xFF), (hash & 0xFF)
 
     def __get_bam_session(self):
-        for idx, i in enumerate(self.__bam_session_list):
-            if i == True:
-                self.__bam_session_list[idx] = False
-                return idx
+        # send_pgn may be called from several threads: find and take a free number in one step
+        with self._session_lock:
+            for idx, i in enumerate(self.__bam_session_list):
+                if i == True:
+                    self.__bam_session_list[idx] = False
+                    return idx
         return None
 
     def __put_bam_session(self, session):
         self.__bam_session_list[session] = True
 
     def __get_rts_cts_session(self):
-        for idx, i in enumerate(self.__rts_cts_session_list):
-            if i == True:
-                self.__rts_cts_session_list[idx] = False
-                return idx
+        with self._session_lock:
+            for idx, i in enumerate(self.__rts_cts_session_list):
+                if i == True:
+                    self.__rts_cts_session_list[idx] = False
+                    return idx
         return None
 
     def __put_rts_cts_session(self, session):
